@@ -156,3 +156,27 @@ def reaches_avoiding(body, a, b, avoid):
         seen.add(s)
         work.append(s)
   return False
+
+
+def deep_origins(body, op, depth=0, all_args=False, named_terminal=False):
+  """origins, continuing through the first argument (or all arguments) of every call on the chain"""
+  from ..facts import origins
+  out = []
+  for o in origins(body, op, named_terminal=named_terminal, depth=1 if named_terminal else 0):
+    out.append(o)
+    if o.kind == 'call' and o.call.args and depth < 8:
+      for a in (o.call.args if all_args else o.call.args[:1]):
+        out.extend(deep_origins(body, a, depth + 1, all_args, named_terminal))
+    if o.kind == 'bin' and depth < 8:
+      out.extend(deep_origins(body, o.agg['a'], depth + 1, all_args, named_terminal))
+      out.extend(deep_origins(body, o.agg['b'], depth + 1, all_args, named_terminal))
+  return out
+
+
+def origin_fields(os_):
+  s = set()
+  for o in os_:
+    s |= set(map(str, o.fields))
+    if o.name:
+      s.add(o.name)
+  return s
